@@ -766,7 +766,8 @@ func (client *Client) input() {
 			err = io.ErrUnexpectedEOF
 		}
 	}
-	for _, call := range client.pending {
+	for seq, call := range client.pending {
+		delete(client.pending, seq)
 		call.Error = err
 		call.done()
 	}
